@@ -44,5 +44,14 @@ int main(){
   printf("Definition gen_desc_parts : Z := %d%%Z.\n", (int)SCPIDEFINE_DESCRIPTION_MAX_PARTS);
   printf("Definition gen_config : list Z := [%d; %d; %d; %d]%%Z.  (* USE_DEVICE_DEPENDENT_ERROR_INFORMATION USE_MEMORY_ALLOCATION_FREE USE_CUSTOM_DTOSTRE HAVE_STDBOOL *)\n",
          (int)USE_DEVICE_DEPENDENT_ERROR_INFORMATION,(int)USE_MEMORY_ALLOCATION_FREE,(int)USE_CUSTOM_DTOSTRE,(int)HAVE_STDBOOL);
+  /* character classes of the lexer: for every byte value (as the lexer passes it: plain char for its own predicates,
+     (uint8_t) for the <ctype.h> ones) whether the predicate holds */
+#define CC(name, expr) do { printf("Definition gen_cc_%s : list N := [", name); int first_ = 1; \
+    for (int b = 0; b < 256; b++) { int c = (int)(char) b; int u = (int)(uint8_t) b; (void) c; (void) u; if (expr) { printf("%s%d", first_ ? "" : "; ", b); first_ = 0; } } \
+    printf("]%%N.\n"); } while (0)
+  CC("isws", isws(c)); CC("isbdigit", isbdigit(c)); CC("isqdigit", isqdigit(c)); CC("isplusmn", isplusmn(c));
+  CC("isH", isH(c)); CC("isB", isB(c)); CC("isQ", isQ(c)); CC("isE", isE(c)); CC("isascii7", isascii7bit(c));
+  CC("isexpr", isProgramExpression(c)); CC("isnzdigit", isNonzeroDigit(u));
+  CC("isdigit", isdigit(u)); CC("isalpha", isalpha(u)); CC("isalnum", isalnum(u)); CC("isxdigit", isxdigit(u));
   printf("Definition gen_native_format : Z := %d%%Z.  (* SCPI_GetNativeFormat(): 1 big endian (NORMAL), 2 little endian (SWAPPED) *)\n", (int)SCPI_GetNativeFormat());
   return 0; }
